@@ -607,3 +607,25 @@ func VerifH_C18_portsFile() {
 		}
 	}
 }
+
+// VerifH_C18_portsLong: a ports file with two entries and one comment line of LONG bytes at a
+// solver-chosen position: refused, or both entries returned - never a silently truncated list.
+func VerifH_C18_portsLong() {
+	lines := []string{"80", "443-445"}
+	long := "#" + strings.Repeat("x", verifParam("LONG", 65536))
+	pos := ndU8("longLineAt")
+	verifAssume(pos <= 2)
+	k := int(verifConcretize(uint64(pos)))
+	lines = append(lines[:k], append([]string{long}, lines[k:]...)...)
+	text := strings.Join(lines, "\n") + "\n"
+	rs, err := parsePortsFile(func() (io.ReadCloser, error) { return io.NopCloser(strings.NewReader(text)), nil })
+	if err != nil {
+		verifCover("rejected")
+		return
+	}
+	verifCover("accepted")
+	verifAssert(len(rs) == 2, "ports file: entries after (or before) an over-long line were silently dropped")
+	if len(rs) == 2 {
+		verifAssert(rs[0].StartPort == 80 && rs[0].EndPort == 80 && rs[1].StartPort == 443 && rs[1].EndPort == 445, "ports file: a range is not the entry written")
+	}
+}
